@@ -954,7 +954,7 @@ static void run_line(char *line)
 		}
 		free(p);
 		free(c);
-	} else if (!strcmp(w[0], "PW") || !strcmp(w[0], "MAXINC")) {
+	} else if (!strcmp(w[0], "PW") || !strcmp(w[0], "MAXINC") || !strcmp(w[0], "MPB")) {
 		/* oracle facts for the model only */
 	} else if (!strcmp(w[0], "ERRNO") && n == 2) {
 		pending_errno = atoi(w[1]);
